@@ -20,7 +20,7 @@ func init() {
 			{"C14/order-insensitive", func(c *Ctx) { c.ruleOrderInsensitive("C14/order-insensitive", "EV", "RES", "MAR") }},
 		},
 		Explanation: "Decides purity as a write effect and determinism as an iteration-order property: (1) no function reachable from Resolve, Validate or MarshalJSON writes a field of a Schema it was given, or a slice/map loaded from one, and nothing reachable from Validate can mutate the instance (no mutating reflect operation, no store through instance-derived memory); (2) the generic set-merge and the annotation methods never store or return a map that aliases an argument's map; (3) the only nondeterminism sources reachable are map iteration and maphash.MakeSeed, whose value flows only into SetSeed; no time, rand, environment, goroutine or select; (4) every order-randomised iteration (range over a map, reflect map iteration, range over properties()) reachable from these entry points is order-insensitive by the effect classifier. It does NOT observe equality of results across runs or processes.",
-		NotDecided: []string{"equality of verdicts and marshaled bytes across processes as an observed fact", "determinism of encoding/json and regexp themselves", "text of error messages (may legitimately depend on map order)"},
+		NotDecided:  []string{"equality of verdicts and marshaled bytes across processes as an observed fact", "determinism of encoding/json and regexp themselves", "text of error messages (may legitimately depend on map order)"},
 	})
 }
 
